@@ -363,6 +363,46 @@ def run(ctx):
            'the averaged groups get partner lists built from all conformations and made of '
            'averaged groups (clone() aliases the list of one conformation: %s; rebuilt in the '
            'averaging step: %s)' % (aliases, bool(rebuilt)), mcm, rebuilt[0] if rebuilt else avg)
+    # ... and each averaged group's list is computed from that group alone: the
+    # list is created inside the per-group loop and no condition on the way to
+    # its append reads state that an earlier group's iteration has changed
+    # (a set of "already listed" partners shared by all groups makes B's list
+    # lose A once A was listed for somebody else: an asymmetric relation)
+    if rebuilt:
+        from sa.astutil import enclosing_loops, names_in
+        loops = enclosing_loops(rebuilt[0], avg)
+        outer = loops[-1] if loops else None     # the per-group loop
+        indep, why = outer is not None, 'no enclosing loop'
+        if outer is not None:
+            bound_inside = {n.id for n in ast.walk(outer) if isinstance(n, ast.Name)
+                            and isinstance(n.ctx, ast.Store)}
+            mutated = set()
+            for c in calls_in(outer):
+                if isinstance(c.func, ast.Attribute) and isinstance(c.func.value, ast.Name) and c.func.attr in (
+                        'add', 'append', 'extend', 'update', 'insert', 'remove', 'discard', 'pop',
+                        'setdefault', 'clear'):
+                    mutated.add(c.func.value.id)
+            for n in ast.walk(outer):
+                if isinstance(n, ast.Subscript) and isinstance(n.ctx, (ast.Store, ast.Del)) \
+                        and isinstance(n.value, ast.Name):
+                    mutated.add(n.value.id)
+                if isinstance(n, ast.AugAssign) and isinstance(n.target, ast.Name):
+                    mutated.add(n.target.id)
+            carried = mutated - bound_inside
+            lst = norm(rebuilt[0].value)
+            apps = [c for c in calls_in(outer) if last_attr(c) in ('append', 'add')
+                    and norm(c.func.value) == lst]
+            why = 'carried state %s' % sorted(carried)
+            indep = lst in bound_inside and bool(apps)
+            for c in apps:
+                for e, _p in facts_at(c, avg):
+                    if names_in(e) & carried:
+                        indep = False
+                        why = 'append of %s is conditioned on %s, which carries state from one group ' \
+                              'to the next' % (lst, sorted(names_in(e) & carried))
+        ctx.ob('C15.R4', 'average:marks-per-group-independent', indep,
+               'the partner list of an averaged group is built inside the per-group loop from that '
+               'group\'s conformations only (%s)' % why, mcm, rebuilt[0])
     # coupling is registered exactly when the probe reports a positive factor
     reg = [c for c in calls_in(ident) if last_attr(c) == 'couple_non_covalently']
     ican = canon(ident)
